@@ -111,7 +111,10 @@ class Roles:
         if isinstance(it, ast.Call) and call_name(it) == "enumerate" \
                 and isinstance(target, (ast.Tuple, ast.List)) \
                 and len(target.elts) == 2 and it.args:
-            return self._bind(target.elts[1], self.of(it.args[0]))
+            return self._bind_iter(target.elts[1], it.args[0])
+        if isinstance(it, ast.Call) and call_name(it) in (
+                "list", "tuple", "reversed", "iter") and len(it.args) == 1:
+            return self._bind_iter(target, it.args[0])
         return self._bind(target, self.of(it))
 
     def _fix(self):
